@@ -246,6 +246,34 @@ func (h *HolderLogger) Check(nameOf func(any) string) []string {
 	return out
 }
 
+// Embedded structs that carry a tag are fields like any other, not holders to look into: a user-defined
+// tag on one is delivered to its processor (with the embedded field itself), a foreign tag
+// (json:",inline") makes the container leave the whole field alone. Either way the tags inside are not
+// the container's business.
+type Stamped struct {
+	Inner string `value:"inner"`
+}
+type OptionsMix struct {
+	W IA     `wire:"pab"`
+	V string `value:"v"`
+}
+type HolderTaggedEmbeds struct {
+	Stamped    `mytag:"created"`
+	OptionsMix `json:",inline"`
+	Own        string `value:"own"`
+}
+
+func (h *HolderTaggedEmbeds) Check(nameOf func(any) string) []string {
+	var out []string
+	if h.Inner != "SENTINEL" || h.W != nil || h.V != "SENTINEL" {
+		out = append(out, fmt.Sprintf("HolderTaggedEmbeds: fields inside tagged embedded structs were written: Stamped.Inner=%q OptionsMix.W=%q OptionsMix.V=%q", h.Inner, nameOf(h.W), h.V))
+	}
+	if h.Own != "own" {
+		out = append(out, "HolderTaggedEmbeds.Own not bound")
+	}
+	return out
+}
+
 // NewEmbedFixtures returns fresh fixture holders with sentinels in the fields the container must not touch.
 func NewEmbedFixtures() []EmbedFixture {
 	a := &HolderFlat{u: 777, N: "SENTINEL"}
@@ -257,5 +285,6 @@ func NewEmbedFixtures() []EmbedFixture {
 	d.u, d.N = 777, "SENTINEL"
 	return []EmbedFixture{a, b, c, d, &HolderSiblings{}, &HolderPtrEmbedded{SharedState: &SharedState{V: "SENTINEL"}},
 		&HolderLogger{},
+		&HolderTaggedEmbeds{Stamped: Stamped{Inner: "SENTINEL"}, OptionsMix: OptionsMix{V: "SENTINEL"}},
 		&HolderPrefixedEmbed{PrefixedMix: PrefixedMix{Keep: "SENTINEL", Num: 4242, hidden: 777}}}
 }
